@@ -1,50 +1,69 @@
-// C01 (histories): single-threaded BFS over submit / cancel / run-loop / cleanup / destroy histories on the real loop.
+// C01 (histories): single-threaded BFS over submit / cancel / timer / run-loop / cleanup / destroy histories on the real loop.
 // usage: hist_harness <engine> <depth> [sizes-depth]
-//   main search : every history up to <depth> over the full alphabet (bulk size fixed at 3)
-//   size lanes  : one extra search per bulk size N (around the documented drain bound of 100 generations and well
-//                 above it) over a reduced alphabet, depth [sizes-depth]: N callables pending in ONE generation at
-//                 loop stop / cleanup() / destruction, submitted from outside or by a callable of the last iteration.
+//   size lanes  : one search per bulk size N (around the documented drain bound of 100 generations and well above it) over a
+//                 reduced alphabet, depth [sizes-depth]: N callables pending in ONE generation at loop stop / cleanup() / destruction.
+//   chain lanes : one search per chain length N in {3, 99, 100}: a callable that re-submits itself (alternating entry points) until N
+//                 callables have run, i.e. N drain generations, the last two at and just below the documented bound of 100 rounds.
+//   main search : every history up to <depth> over the full alphabet (bulk size fixed at 3).
+// Private members are only read for the state key, through engine/probe.h (a renamed member degrades the key, not the build);
+// every oracle clause is decided by the model. The loop is stopped through the public exitLoop().
 #include "hist/hist.h"
+#include "probe.h"
 #include <tbox/event/loop.h>
 #include <tbox/event/common_loop.h>
+#include <tbox/event/timer_event.h>
 #include <sys/epoll.h>
 #include <sys/select.h>
 #include <sys/syscall.h>
-#include <unordered_map>
+#include <errno.h>
 
 using namespace tbox::event;
+VF_PROBE(run_next_func_queue_) VF_PROBE(run_in_loop_func_queue_) VF_PROBE(tmp_func_queue_) VF_PROBE(has_commit_run_req_)
 struct World;
-static CommonLoop *g_cl = nullptr; static World *g_w = nullptr; static long g_idle_exits = 0;
-static int g_bulk_n = 3;
+static World *g_w = nullptr; static long g_idle_exits = 0, g_clock_jumps = 0, g_eintr = 0;
+static int g_bulk_n = 3, g_chain_n = 3;
+// virtual clock (only while a history is evaluated; the engine's deadline reads the real clock)
+static long long vnow = 1000000; static bool g_virt = false;
+extern "C" int clock_gettime(clockid_t id, struct timespec *ts) { if (!g_virt) return (int)syscall(SYS_clock_gettime, id, ts); ts->tv_sec = vnow / 1000; ts->tv_nsec = (vnow % 1000) * 1000000; return 0; }
+extern "C" int gettimeofday(struct timeval *tv, void *tz) { if (!g_virt) return (int)syscall(SYS_gettimeofday, tv, tz); if (tv) { tv->tv_sec = vnow / 1000; tv->tv_usec = (vnow % 1000) * 1000; } return 0; }
+static bool g_fail_next_wait = false;     // the next wait call of the back-end is interrupted by a signal: returns -1 / EINTR
 static void idle_hook();
-// When the loop would block forever with nothing ready, an exit request "arrives" (keeps the single-threaded run finite).
-// Before that the model is asked whether any callable is still owed: a loop that goes to sleep with work pending is a lost wake-up.
+// When the loop would block with nothing ready: first the model is asked whether any callable is still owed (a loop that goes to
+// sleep with work pending is a lost wake-up). Then, if a timer is armed, virtual time jumps past its deadline; otherwise an exit
+// request "arrives" (keeps the single-threaded run finite).
 extern "C" int epoll_wait(int epfd, struct epoll_event *ev, int maxev, int timeout) {
+  if (g_w && g_fail_next_wait) { g_fail_next_wait = false; g_eintr++; errno = EINTR; return -1; }
   int n = (int)syscall(SYS_epoll_wait, epfd, ev, maxev, 0);
-  if (n == 0 && timeout != 0 && g_cl) idle_hook();
+  if (n == 0 && timeout != 0 && g_w) idle_hook();
   return n;
 }
 extern "C" int select(int nfds, fd_set *r, fd_set *w, fd_set *e, struct timeval *tv) {
+  if (g_w && g_fail_next_wait) { g_fail_next_wait = false; g_eintr++; errno = EINTR; return -1; }
   struct timeval z = {0, 0}; bool blocking = !(tv && tv->tv_sec == 0 && tv->tv_usec == 0);
   int n = (int)syscall(SYS_select, nfds, r, w, e, &z);
-  if (n == 0 && blocking && g_cl) idle_hook();
+  if (n == 0 && blocking && g_w) idle_hook();
   return n;
 }
 
-enum Kind { SUB_NEXT, SUB_INLOOP, SUB_RUN, CANCEL, PASS_FOREVER, PASS_ONCE, CLEANUP, TOPBULK_NEXT, TOPBULK_INLOOP, NKIND };
-enum Beh { PLAIN, CHILD_NEXT, CHILD_INLOOP, CANCEL_FOLLOWING, CANCEL_PREVIOUS, EXIT, CANCEL_SELF, CHAIN3, BULK, NBEH };
+enum Kind { SUB_NEXT, SUB_INLOOP, SUB_RUN, CANCEL, PASS_FOREVER, PASS_ONCE, CLEANUP, TOPBULK_NEXT, TOPBULK_INLOOP, TIMER, NKIND };
+enum Beh { PLAIN, CHILD_NEXT, CHILD_INLOOP, CANCEL_FOLLOWING, CANCEL_PREVIOUS, EXIT, CANCEL_SELF, CHAIN3, BULK, EXIT_DELAYED, CHAIN, NBEH };
 struct Op { int k, a; };
-static const char *kN[] = {"runNext", "runInLoop", "run", "cancel", "loopForever", "loopOnce", "cleanup", "bulkNext", "bulkInLoop"};
-static const char *bN[] = {"plain", "child-next", "child-inloop", "cancel-following", "cancel-previous", "exit", "cancel-self", "chain3", "bulk"};
+static const char *kN[] = {"runNext", "runInLoop", "run", "cancel", "loopForever", "loopOnce", "cleanup", "bulkNext", "bulkInLoop", "timer"};
+static const char *bN[] = {"plain", "child-next", "child-inloop", "cancel-following", "cancel-previous", "exit", "cancel-self", "chain3", "bulk", "exit-after-1ms", "chain"};
+static const int ENTRY_TIMER = 3;   // a timer callback: not a deferred callable (nothing is owed for it), but it submits some
 
-struct Task { int entry = 0; int beh = 0; Loop::RunId id = 0; int ran = 0; bool cancelled_ok = false; long order = 0; int parent = -1; };
+struct Task { int entry = 0; int beh = 0; int cnt = 0; Loop::RunId id = 0; int ran = 0; bool cancelled_ok = false; long order = 0; int parent = -1; };
 struct World {
   Loop *loop; std::deque<Task> t; long order = 0; std::string viol; bool in_pass = false; long exit_at = 0;
-  int add(int entry, int beh, int parent) { Task nt; nt.entry = entry; nt.beh = beh; nt.parent = parent; t.push_back(nt); return (int)t.size() - 1; }
+  std::vector<TimerEvent *> timers; int armed = 0; bool delayed_exit = false; int jumps_in_pass = 0;
+  bool owed(const Task &x) const { return x.entry != ENTRY_TIMER && !x.cancelled_ok && x.ran == 0; }
+  int owed_count() const { int n = 0; for (auto &x : t) if (owed(x)) n++; return n; }
+  int add(int entry, int beh, int parent, int cnt = 0) { Task nt; nt.entry = entry; nt.beh = beh; nt.parent = parent; nt.cnt = cnt; t.push_back(nt); return (int)t.size() - 1; }
   void submit(int idx) {
     auto f = [this, idx] { exec(idx); };
     Task &x = t[idx];
-    if (idx & 1) {      // odd tasks go through the `const Func &` overloads, even ones through `Func &&`
+    // overload: `const Func &` iff (callables owed before this one + entry) is odd - a function of the canonical state, so merged states agree on it
+    if ((owed_count() - 1 + x.entry) & 1) {
       const Loop::Func cf(f);
       if (x.entry == SUB_NEXT) x.id = loop->runNext(cf); else if (x.entry == SUB_INLOOP) x.id = loop->runInLoop(cf); else x.id = loop->run(cf);
     } else {
@@ -52,51 +71,65 @@ struct World {
     }
     if (x.id == 0) viol = "submit-returned-null-id";
   }
-  void spawn(int entry, int beh, int parent) { int c = add(entry, beh, parent); submit(c); }
+  void spawn(int entry, int beh, int parent, int cnt = 0) { int c = add(entry, beh, parent, cnt); submit(c); }
+  void arm_timer(int beh) {      // one-shot, one hour ahead
+    int idx = add(ENTRY_TIMER, beh, -1);
+    TimerEvent *te = loop->newTimerEvent("C01"); te->initialize(std::chrono::milliseconds(3600000), Event::Mode::kOneshot);
+    te->setCallback([this, idx] { armed--; exec(idx); }); te->enable(); timers.push_back(te); armed++;
+  }
   void do_cancel(int idx) {
-    if (idx < 0 || idx >= (int)t.size()) return; Task &x = t[idx];
+    if (idx < 0 || idx >= (int)t.size()) return; Task &x = t[idx]; if (x.entry == ENTRY_TIMER) return;
     bool r = loop->cancel(x.id);
     if (r) { if (x.ran) viol = "cancel-true-for-a-callable-that-already-ran"; if (x.cancelled_ok) viol = "cancel-true-twice"; x.cancelled_ok = true; }
   }
   void exec(int idx) {
     Task &x = t[idx]; x.ran++; x.order = ++order;
     if (x.cancelled_ok) viol = "cancelled-callable-was-invoked";
-    int beh = x.beh, entry = x.entry;
+    int beh = x.beh, entry = x.entry, cnt = x.cnt;
     switch (beh) {
       case CHILD_NEXT: spawn(SUB_NEXT, PLAIN, idx); break;
       case CHILD_INLOOP: spawn(SUB_INLOOP, PLAIN, idx); break;
-      case CHAIN3: spawn(SUB_NEXT, CHILD_INLOOP, idx); break;      // four generations: this -> runNext child -> runInLoop grandchild -> plain
+      case CHAIN3: spawn(SUB_NEXT, CHILD_INLOOP, idx); break;      // three generations: this -> runNext child -> runInLoop plain grandchild
+      case CHAIN: if (cnt > 1) spawn(entry == SUB_NEXT ? SUB_INLOOP : SUB_NEXT, CHAIN, idx, cnt - 1); break;   // re-submits itself, alternating entry points, cnt callables in all
       case BULK: for (int i = 0; i < g_bulk_n; i++) spawn(entry, PLAIN, idx); break;   // N callables of one generation through the entry point this one came by
       case CANCEL_FOLLOWING: do_cancel(idx + 1); break;
       case CANCEL_PREVIOUS: do_cancel(idx - 1); break;
       case CANCEL_SELF: do_cancel(idx); break;        // "cancel whatever I still have pending" idiom: the running callable cancels its own id
-      case EXIT: if (in_pass) { if (!exit_at) exit_at = order; loop->exitLoop(); } break;
+      case EXIT: if (in_pass) { if (!exit_at) exit_at = order; delayed_exit = false; loop->exitLoop(); } break;
+      case EXIT_DELAYED: if (in_pass) { delayed_exit = true; loop->exitLoop(std::chrono::milliseconds(1)); } break;   // the stop arrives from a timer callback
     }
   }
-  bool owed(const Task &x) const { return !x.cancelled_ok && x.ran == 0; }
 };
 static void idle_hook() {
-  g_idle_exits++;
-  if (g_w && g_w->viol.empty()) for (auto &x : g_w->t) if (g_w->owed(x)) { g_w->viol = std::string("loop-sleeps-with-pending-callable-") + kN[x.entry]; break; }
-  g_cl->stopLoop();
+  World &w = *g_w; g_idle_exits++;
+  if (w.viol.empty()) for (auto &x : w.t) if (w.owed(x)) { w.viol = std::string("loop-sleeps-with-pending-callable-") + kN[x.entry]; break; }
+  if (w.viol.empty() && (w.armed > 0 || w.delayed_exit) && w.jumps_in_pass < 3) { w.jumps_in_pass++; g_clock_jumps++; w.delayed_exit = false; vnow += 3600001; return; }   // the armed timers are due now
+  w.loop->exitLoop();
 }
 
 static std::string engine;
-static std::string show_op(const Op &o) { char b[48]; if (o.k <= SUB_RUN) snprintf(b, sizeof b, "%s(%s)", kN[o.k], bN[o.a]); else if (o.k == CANCEL) snprintf(b, sizeof b, "cancel(#%d)", o.a); else snprintf(b, sizeof b, "%s", kN[o.k]); return std::string(b); }
+static std::string show_op(const Op &o) { char b[48];
+  if (o.k <= SUB_RUN || o.k == TIMER) snprintf(b, sizeof b, "%s(%s)", kN[o.k], bN[o.a]); else if (o.k == CANCEL) snprintf(b, sizeof b, "cancel(#%d)", o.a);
+  else if (o.k == PASS_FOREVER || o.k == PASS_ONCE) snprintf(b, sizeof b, "%s%s", kN[o.k], o.a ? "(first-wait-EINTR)" : ""); else snprintf(b, sizeof b, "%s", kN[o.k]);
+  return std::string(b); }
 
 static std::string run_history(const std::vector<Op> &h, std::string &viol) {
-  World w; w.loop = Loop::New(engine); CommonLoop *cl = static_cast<CommonLoop *>(w.loop); g_cl = cl; g_w = &w;
+  vnow = 1000000; g_virt = true; g_fail_next_wait = false;
+  World w; w.loop = Loop::New(engine); CommonLoop *cl = static_cast<CommonLoop *>(w.loop); g_w = &w;
   std::vector<int> top;   // indices of tasks submitted by top-level ops, in issue order
   for (auto &o : h) {
     switch (o.k) {
-      case SUB_NEXT: case SUB_INLOOP: case SUB_RUN: { int i = w.add(o.k, o.a, -1); top.push_back(i); w.submit(i); } break;
+      case SUB_NEXT: case SUB_INLOOP: case SUB_RUN: { int i = w.add(o.k, o.a, -1, o.a == CHAIN ? g_chain_n : 0); top.push_back(i); w.submit(i); } break;
       case TOPBULK_NEXT: case TOPBULK_INLOOP: for (int n = 0; n < g_bulk_n; n++) { int i = w.add(o.k == TOPBULK_NEXT ? SUB_NEXT : SUB_INLOOP, PLAIN, -1); top.push_back(i); w.submit(i); } break;
+      case TIMER: w.arm_timer(o.a); break;
       case CANCEL: if (o.a < (int)top.size()) w.do_cancel(top[o.a]); break;
       case CLEANUP: w.loop->cleanup(); break;   // public drain between runs; the property says nothing about what it must run, only that nothing is lost / doubled / reordered across it
       case PASS_FOREVER: case PASS_ONCE: {
-        long pass_start = w.order; w.exit_at = 0;
+        long pass_start = w.order; w.exit_at = 0; w.jumps_in_pass = 0;
         w.loop->runNext([] {});            // so the back-end polls instead of sleeping
+        g_fail_next_wait = (o.a == 1);
         w.in_pass = true; w.loop->runLoop(o.k == PASS_FOREVER ? Loop::Mode::kForever : Loop::Mode::kOnce); w.in_pass = false;
+        g_fail_next_wait = false;
         // a callable pending when the loop stops is run during shutdown: nothing that was submitted before the stop may be left behind.
         // Decided by the model: submitted from outside (before this pass), or by a callable that ran before this pass or before the first exitLoop() call of it.
         for (auto &x : w.t) if (w.owed(x)) {
@@ -107,21 +140,24 @@ static std::string run_history(const std::vector<Op> &h, std::string &viol) {
     }
     if (!w.viol.empty()) break;
   }
-  // canonical state before destruction: queue contents as (entry,behaviour,ran,cancelled) of the owning task + flags
-  std::string c;
-  std::unordered_map<Loop::RunId, int> by_id; for (size_t i = 0; i < w.t.size(); i++) by_id[w.t[i].id] = (int)i;
-  auto key = [&](Loop::RunId id) { auto it = by_id.find(id); if (it == by_id.end()) return std::string("?,"); char b[32]; snprintf(b, sizeof b, "%d.%d.%d,", w.t[it->second].entry, w.t[it->second].beh, it->second - (int)w.t.size()); return std::string(b); };
-  c += "N:"; for (auto &it : cl->run_next_func_queue_) c += key(it.id); c += "|L:"; for (auto &it : cl->run_in_loop_func_queue_) c += key(it.id);
-  c += "|T:"; for (auto &it : cl->tmp_func_queue_) c += key(it.id);
-  c += "|f" + std::to_string((int)cl->has_commit_run_req_) + "|issued" + std::to_string(top.size() > 4 ? 4 : top.size());
-  // stale handles the harness may still cancel: the status of the first 4 issued callables
+  // canonical state before destruction. Model part: the owed callables in submission order as (entry, behaviour, remaining chain, index relative to the next one),
+  // the armed timers, the pending delayed exit, the status of the handles the harness may still cancel. Implementation part (probed): the three queue lengths + the wake-up flag.
+  std::string c; char b[48];
+  for (size_t i = 0; i < w.t.size(); i++) { auto &x = w.t[i];
+    if (w.owed(x)) { snprintf(b, sizeof b, "%d.%d.%d.%d,", x.entry, x.beh, x.cnt, (int)i - (int)w.t.size()); c += b; }
+    else if (x.entry == ENTRY_TIMER && x.ran == 0) { snprintf(b, sizeof b, "T%d.%d,", x.beh, (int)i - (int)w.t.size()); c += b; } }
+  snprintf(b, sizeof b, "|N%zu|L%zu|T%zu|f%d|d%d|issued%zu", VF_SIZE(run_next_func_queue_, *cl, (size_t)0), VF_SIZE(run_in_loop_func_queue_, *cl, (size_t)0), VF_SIZE(tmp_func_queue_, *cl, (size_t)0),
+           VF_GET(has_commit_run_req_, *cl, 0), (int)w.delayed_exit, top.size() > 4 ? (size_t)4 : top.size()); c += b;
   for (size_t i = 0; i < top.size() && i < 4; i++) { auto &x = w.t[top[i]]; c += (x.cancelled_ok ? 'c' : x.ran ? 'r' : 'p'); }
-  g_cl = nullptr; delete w.loop; g_w = nullptr;     // destruction runs whatever is still pending
+  if (vf_any_missing()) { c += "|ops:"; for (size_t i = h.size() > 3 ? h.size() - 3 : 0; i < h.size(); i++) c += show_op(h[i]) + ","; }
+  for (auto *te : w.timers) delete te;
+  delete w.loop; g_w = nullptr; g_virt = false;     // destruction runs whatever is still pending
   if (w.viol.empty()) {
     long last[3] = {0, 0, 0};
-    for (auto &x : w.t) { int want = x.cancelled_ok ? 0 : 1; if (x.ran != want) { w.viol = x.ran > want ? "callable-invoked-more-than-once" : "callable-dropped-never-invoked"; break; } }
+    for (auto &x : w.t) { if (x.entry == ENTRY_TIMER) { if (x.ran > 1) w.viol = "one-shot-timer-fired-twice"; continue; }
+      int want = x.cancelled_ok ? 0 : 1; if (x.ran != want) { w.viol = x.ran > want ? "callable-invoked-more-than-once" : "callable-dropped-never-invoked"; break; } }
     // submission order within one entry point (tasks are created in submission order)
-    if (w.viol.empty()) for (auto &x : w.t) if (x.ran) { if (x.order < last[x.entry]) { w.viol = std::string("order-violated-within-entry-point-") + kN[x.entry]; break; } last[x.entry] = x.order; }
+    if (w.viol.empty()) for (auto &x : w.t) if (x.ran && x.entry != ENTRY_TIMER) { if (x.order < last[x.entry]) { w.viol = std::string("order-violated-within-entry-point-") + kN[x.entry]; break; } last[x.entry] = x.order; }
   }
   viol = w.viol;
   return c;
@@ -135,7 +171,7 @@ int main(int argc, char **argv) {
   for (int n : {1, 99, 100, 101, 102, 201, 1000}) {
     hx::Explorer<Op> ex; ex.name = engine + "-bulk" + std::to_string(n); ex.deadline_s = deadline; ex.show = show_op; ex.run = run_history;
     ex.menu = [&](const std::vector<Op> &h) {
-      std::vector<Op> m; bool any = false; for (auto &o : h) if (o.k <= SUB_RUN || o.k >= TOPBULK_NEXT) any = true;
+      std::vector<Op> m; bool any = false; for (auto &o : h) if (o.k <= SUB_RUN || o.k == TOPBULK_NEXT || o.k == TOPBULK_INLOOP) any = true;
       for (int k : {SUB_NEXT, SUB_INLOOP, SUB_RUN}) m.push_back({k, BULK});
       m.push_back({SUB_NEXT, EXIT}); m.push_back({SUB_INLOOP, EXIT});
       m.push_back({TOPBULK_NEXT, 0}); m.push_back({TOPBULK_INLOOP, 0});
@@ -144,16 +180,31 @@ int main(int argc, char **argv) {
       return m; };
     g_bulk_n = n; ex.explore(sdepth);
   }
+  // chain lanes: N drain generations
+  for (int n : {3, 99, 100}) {
+    hx::Explorer<Op> ex; ex.name = engine + "-chain" + std::to_string(n); ex.deadline_s = deadline; ex.show = show_op; ex.run = run_history;
+    ex.menu = [&](const std::vector<Op> &h) {
+      std::vector<Op> m; bool any = false; for (auto &o : h) if (o.k <= SUB_RUN) any = true;
+      for (int k : {SUB_NEXT, SUB_INLOOP, SUB_RUN}) m.push_back({k, CHAIN});
+      m.push_back({SUB_NEXT, EXIT}); m.push_back({TIMER, PLAIN});
+      if (any) m.push_back({CANCEL, 0});
+      m.push_back({PASS_FOREVER, 0}); m.push_back({PASS_ONCE, 0}); m.push_back({PASS_ONCE, 1}); m.push_back({CLEANUP, 0});
+      return m; };
+    g_chain_n = n; g_bulk_n = 3; ex.explore(sdepth);
+  }
   {
     hx::Explorer<Op> ex; ex.name = engine; ex.deadline_s = deadline; ex.show = show_op; ex.run = run_history;
     ex.menu = [&](const std::vector<Op> &h) {
       std::vector<Op> m; int issued = 0; for (auto &o : h) if (o.k <= SUB_RUN) issued++;
-      for (int k : {SUB_NEXT, SUB_INLOOP, SUB_RUN}) for (int b = 0; b < NBEH; b++) if (b != BULK) m.push_back({k, b});
+      for (int b : {PLAIN, CHILD_NEXT, CHILD_INLOOP, CANCEL_FOLLOWING, CANCEL_PREVIOUS, EXIT, CANCEL_SELF, EXIT_DELAYED}) m.push_back({SUB_NEXT, b});
+      for (int b : {PLAIN, CHILD_NEXT, CHILD_INLOOP, CANCEL_FOLLOWING, CANCEL_PREVIOUS, EXIT, CANCEL_SELF}) m.push_back({SUB_INLOOP, b});
+      for (int b : {PLAIN, CHILD_INLOOP, CANCEL_SELF}) m.push_back({SUB_RUN, b});     // on one thread run() is runNext(): only the decision / overload path differs
+      for (int b : {PLAIN, CHILD_NEXT, CHILD_INLOOP, EXIT}) m.push_back({TIMER, b});
       for (int i = 0; i < issued && i < 4; i++) m.push_back({CANCEL, i});
-      m.push_back({PASS_FOREVER, 0}); m.push_back({PASS_ONCE, 0}); m.push_back({CLEANUP, 0});
+      m.push_back({PASS_FOREVER, 0}); m.push_back({PASS_ONCE, 0}); m.push_back({PASS_FOREVER, 1}); m.push_back({PASS_ONCE, 1}); m.push_back({CLEANUP, 0});
       return m; };
     g_bulk_n = 3; ex.explore(depth);
   }
-  printf("@STAT idle_exits=%ld\n", g_idle_exits);
+  printf("@STAT idle_exits=%ld clock_jumps=%ld first_wait_eintr=%ld\n", g_idle_exits, g_clock_jumps, g_eintr);
   return 0;
 }
